@@ -324,6 +324,21 @@ func newWorld(sc Scenario) *world {
 	if sc.Eq == "e" {
 		common = append(common, resource.WithNoDuplicates())
 	}
+	if sc.Eq == "a" {
+		// a tolerance on the integer bodies (not transitive), the driver's comparer `a` / `A` on (v, 0): within `tol`,
+		// an entirely default-valued body equivalent to such a body only; an absent message to an absent one only
+		common = append(common, resource.WithEquivalence(resource.ComparerFunc(func(x, y proto.Message) bool {
+			vx, okx := msgVal(x)
+			vy, oky := msgVal(y)
+			if !okx || !oky {
+				return okx == oky
+			}
+			if vx == 0 || vy == 0 {
+				return vx == vy
+			}
+			return vx-vy <= tol && vy-vx <= tol
+		})))
+	}
 	if sc.Res == "value" {
 		opts := common
 		if v, ok := sc.Init["0"]; ok {
@@ -1016,6 +1031,9 @@ func judge(sc Scenario, o *Outcome, mode string) *verdict {
 			if wok == gok && want == got {
 				continue
 			}
+			if sc.Eq == "a" && wok && gok && want-got <= tol && got-want <= tol {
+				continue // a tolerance equivalence: the view is within the tolerance of the store
+			}
 			var hs []string
 			for _, e := range hist {
 				hs = append(hs, e.String())
@@ -1140,6 +1158,11 @@ func genScenario(rng *rand.Rand, maxWriters int) Scenario {
 	}
 	if allBP && rng.Intn(3) == 0 {
 		sc.Eq = "e"
+		if sc.Res == "value" && rng.Intn(2) == 0 {
+			// a TOLERANCE (not transitive) on a Value, whose writes store 10, 11, 12, ...: each within the tolerance of the
+			// one before (a Collection's drift under a tolerance is C16's recorded finding: not driven)
+			sc.Eq = "a"
+		}
 	}
 	// a collection with an id interceptor, every caller spelling the ids its own way
 	if sc.Res == "coll" && rng.Intn(3) == 0 {
@@ -1319,7 +1342,7 @@ func main() {
 	rng := lib.NewRand(f.Seed)
 	ctl := k4.New(ptUpdSend, ptValSend, ptListener, ptCollLis, ptValLis)
 	tie := res.Tie("k4-pubsub-schedules", "K4",
-		"each case = one scenario (Value or Collection, 1-3 writers x 1-2 writes from {set, add, compare-and-set, delete}, 1-2 subscribers with updates-only / backpressure / PullID options) under one schedule of commit, listener-snapshot, per-listener delivery and subscribe steps forced through the yield points *.beforeSend, bus.send.beforeListener, *.onUpdate.beforeListen (a subscribe may be split at beforeListen, where a commit attempt must block on the lock; a commit is also attempted as a lock probe inside the publication of a Delete, scripted for every subscriber option and at random); on half of the random scenarios the writes carry WithWriteTime stamps that are equal, decreasing or zero and the resource a scripted clock (running backwards, fixed, zero, rising and falling), and a third of the scenarios whose subscribers are all backpressured run on a resource WithNoDuplicates (the model applies the equivalence check of Collection.Pull / Value.Pull); store, views and (backpressured) event sequences at quiescence compared with run(model) on the same schedule; non-trivial = a subscriber registered before the last commit; distinct = distinct (scenario, schedule)")
+		"each case = one scenario (Value or Collection, 1-3 writers x 1-2 writes from {set, add, compare-and-set, delete}, 1-2 subscribers with updates-only / backpressure / PullID options) under one schedule of commit, listener-snapshot, per-listener delivery and subscribe steps forced through the yield points *.beforeSend, bus.send.beforeListener, *.onUpdate.beforeListen (a subscribe may be split at beforeListen, where a commit attempt must block on the lock; a commit is also attempted as a lock probe inside the publication of a Delete, scripted for every subscriber option and at random); on half of the random scenarios the writes carry WithWriteTime stamps that are equal, decreasing or zero and the resource a scripted clock (running backwards, fixed, zero, rising and falling), and a third of the scenarios whose subscribers are all backpressured run on a resource WithNoDuplicates or (Value) with a TOLERANCE equivalence that is not transitive, the writes storing 10, 11, 12, ... (the model applies the equivalence check of Collection.Pull / Value.Pull; under the tolerance the monitor accepts a view within the tolerance of Get); all schedules of a four-step ramp on such a Value; store, views and (backpressured) event sequences at quiescence compared with run(model) on the same schedule; non-trivial = a subscriber registered before the last commit; distinct = distinct (scenario, schedule)")
 	mon := res.Monitor("converges-hooked",
 		"the property on every hooked execution: fold of each subscriber's received events (seed first) up to the sentinel vs Get/List taken after the writers returned; independent of the model; a stale view is classified by what the schedule did (write committed inside a Delete's publication / overlapping publications / lossy seed duplicate / serial)")
 	var cases []pending
@@ -1343,6 +1366,8 @@ func main() {
 		{Res: "value", Init: map[string]int64{"0": 1}, Writers: [][]WOp{{{K: "a", ID: 0, V: 1}, {K: "a", ID: 0, V: 1}}}, Subs: []SubSpec{{BP: true}, {UO: true, BP: true}}},
 		// no duplicates: an equal rewrite, a delete and a re-creation with the same body, the subscriber registering anywhere
 		{Res: "coll", Init: map[string]int64{"0": 1}, Writers: [][]WOp{{{K: "s", ID: 0, V: 1}, {K: "d", ID: 0}, {K: "s", ID: 0, V: 1}}}, Subs: []SubSpec{{BP: true}}, Eq: "e"},
+		// a tolerance equivalence on a Value: a ramp of steps within the tolerance, the subscriber registering anywhere
+		{Res: "value", Init: map[string]int64{"0": 10}, Writers: [][]WOp{{{K: "s", ID: 0, V: 11}, {K: "s", ID: 0, V: 12}, {K: "s", ID: 0, V: 13}, {K: "s", ID: 0, V: 14}}}, Subs: []SubSpec{{BP: true}}, Eq: "a"},
 		// id interceptors: the item is created, changed and deleted under spellings that are not the stored one
 		{Res: "coll", Init: map[string]int64{"1": 1}, Writers: [][]WOp{{{K: "s", ID: 0, V: 2, Sp: 1}, {K: "d", ID: 1, Sp: 1}}}, Subs: []SubSpec{{BP: true}}, Icpt: "lower"},
 		{Res: "coll", Init: map[string]int64{"0": 1}, Writers: [][]WOp{{{K: "d", ID: 0, Sp: 1}, {K: "a", ID: 0, V: 3, Sp: 1}}}, Subs: []SubSpec{{BP: false}}, Icpt: "slash"},
@@ -1439,6 +1464,9 @@ func main() {
 	t0 = time.Now()
 	adaptersMonitor(f, res, rng)
 	tm("adapters", t0)
+	t0 = time.Now()
+	traitTolMonitor(f, res, rng)
+	tm("trait_tolerance", t0)
 	t0 = time.Now()
 	dupMonitor(f, res)
 	tm("dup", t0)
@@ -1620,7 +1648,7 @@ func replay(f lib.Flags) int {
 		Mode string `json:"mode"`
 		Scenario
 	}
-	if err := json.Unmarshal(raw, &in); err != nil || (len(in.Writers) == 0 && in.Mode != "lossy-slow" && in.Mode != "masks" && in.Mode != "lossy-seed-dup" && in.Mode != "include-table" && in.Mode != "merge-table" && in.Mode != "adapter-openclose" && in.Mode != "pullid") {
+	if err := json.Unmarshal(raw, &in); err != nil || (len(in.Writers) == 0 && in.Mode != "lossy-slow" && in.Mode != "masks" && in.Mode != "lossy-seed-dup" && in.Mode != "include-table" && in.Mode != "merge-table" && in.Mode != "adapter-openclose" && in.Mode != "pullid" && in.Mode != "trait-tolerance") {
 		fmt.Println("replay: no concrete input in file (", rp.Kind, ")")
 		return 2
 	}
@@ -1685,6 +1713,24 @@ func replay(f lib.Flags) int {
 			}
 		}
 		fmt.Println("replay: property holds on this input now (50 repetitions)")
+		return 0
+	}
+	if in.Mode == "trait-tolerance" {
+		var ts TraitTolScenario
+		if err := json.Unmarshal(raw, &ts); err != nil {
+			lib.Fatal(err)
+		}
+		for i := 0; i < 20; i++ {
+			v, r := runTraitTol(ts)
+			if v != nil {
+				fmt.Printf("STILL FAILS %s: %s (expected %s, observed %s)\n", v.sig, v.what, v.expected, v.observed)
+				return 1
+			}
+			if i == 0 && r != nil {
+				fmt.Printf("replay trait tolerance %s -> received (units) %v, getter %d\n", ts.key(), r.events, r.get)
+			}
+		}
+		fmt.Println("replay: property holds on this input now (20 repetitions)")
 		return 0
 	}
 	if in.Mode == "pullid" {
